@@ -84,6 +84,34 @@ def legalCfg (c : Cfg) (sampT sampX bT bX dim : Nat) (missingStart : Bool) : Boo
 def rejectedCheck (legal : Bool) : Option String :=
   if legal then some "valid-configuration-rejected" else none
 
+/-! ### resumed runs
+
+The generator returned by a first `jinns.solve` (or after a second `init_rar`) keeps its refinement state;
+the iteration number of the second run restarts at 0, so the schedule clauses of `Holds.C16` (stated for a
+run observed from iteration 0 of a fresh generator) say nothing about it.  The counting clauses do: after
+`J` steps IN TOTAL the active counts are `n_start + J·selected`, no step beyond capacity, never more active
+points than slots. -/
+
+def c16StepCounts (c : Cfg) (J : Nat) (r : Rec16) : Except String Nat :=
+  if r.stepped && !roomAll c J then .error "step-beyond-capacity"
+  else
+    let J' := if r.stepped then J + 1 else J
+    if r.iterNb != J' then .error "step-count"
+    else if cntOver r.cntT c.nt || cntOver r.cntX c.n then .error "active-exceeds-store"
+    else if cntBad r.cntT (c.ntStart + J' * c.selT) then .error "active-count-times"
+    else if cntBad r.cntX (c.nStart + J' * c.selX) then .error "active-count-omega"
+    else .ok J'
+
+def c16ScanCounts (c : Cfg) : Nat → List Rec16 → Option String
+  | _, [] => none
+  | J, r :: rs =>
+    match c16StepCounts c J r with
+    | .error e => some e
+    | .ok J' => c16ScanCounts c J' rs
+
+/-- the counting clauses on the continuation of a run that has already made `J0` steps -/
+def holdsC16Resumed (c : Cfg) (J0 : Nat) (tr : List Rec16) : Option String := c16ScanCounts c J0 tr
+
 /-- what the model shows of one iteration -/
 def recOfObs (c : Cfg) (o : Obs) : Rec16 :=
   { stepped := o.stepped, iterNb := o.st.steps,
